@@ -233,9 +233,13 @@ def compare(dflt: list[str], nat: list[str], lines_of: Any) -> list[tuple[str, s
                     break
         for d, e in zip(ra, rb):
             if (d.col is None) != (e.col is None):
-                comp = "column-presence"
+                comp = "column-missing-default" if d.col is None else "column-missing-native"
             elif d.col != e.col:
                 comp = "column"
+            elif _no_span(d) and not _no_span(e):
+                comp = "end-missing-default"  # the default parser's node carries no end (Errors.report made a 1-char span)
+            elif _no_span(e) and not _no_span(d):
+                comp = "end-missing-native"
             else:
                 comp = "end"
             lt = lines_of(d.file)
@@ -249,6 +253,11 @@ def compare(dflt: list[str], nat: list[str], lines_of: Any) -> list[tuple[str, s
         if not eq2:
             out.append(("s2|order", "same lines, different order across line numbers"))
     return out
+
+
+def _no_span(d: Diag) -> bool:
+    """Shown span is the single character at the start position (what Errors.report substitutes for a missing end)."""
+    return d.el == d.line and d.ec == d.col
 
 
 def _fmt(k: tuple) -> str:
